@@ -379,9 +379,9 @@ def render_isolation(ctx):
             defs = set()
         for d in defs:
             if isinstance(d, ast.Assign) and isinstance(d.value, ast.Subscript) and dotted(d.value.value) == "self._def_regions":
-                bad_alias.append((x, "it was read from the shared _def_regions at line %d" % d.lineno))
+                bad_alias.append((x, "it was read from the shared _def_regions at line %d" % getattr(d, "_srcline", d.lineno)))
             if isinstance(d, ast.Assign) and isinstance(d.value, ast.Call) and dotted(d.value.func) in ("self._def_regions.get", "self._def_regions.setdefault"):
-                bad_alias.append((x, "it was read from the shared _def_regions at line %d" % d.lineno))
+                bad_alias.append((x, "it was read from the shared _def_regions at line %d" % getattr(d, "_srcline", d.lineno)))
         for s, pname in pubs:
             if pname != name or s is st:
                 continue
@@ -389,7 +389,7 @@ def render_isolation(ctx):
             for sn in g.nodes_of(s):
                 for tn in stmt_nodes(g, x):
                     if g.path_avoiding(sn, [tn], redefs, kinds=("n",)):
-                        bad_alias.append((x, "it was stored into the shared _def_regions at line %d and not rebound since" % s.lineno))
+                        bad_alias.append((x, "it was stored into the shared _def_regions at line %d and not rebound since" % getattr(s, "_srcline", s.lineno)))
     if bad_alias:
         x, why = bad_alias[0]
         ctx.violation("memo-alias-mutated", db.where(x), "`%s` mutates a dictionary that may be the per-def entry shared by every render of the template (%s): concurrent renders overwrite each other's value (e.g. the Context handed to the cache backend)" % (src(enclosing_stmt(x)), why))
